@@ -106,7 +106,7 @@ GetProviders(from, k) ==
           /\ provided' = provided \ {<<k, x[2]>> : x \in {y \in dead : y[1] = Local}}
           /\ UNCHANGED bad
 Next == \/ Tick
-        \/ \E f \in Peers, k \in Keys, e \in Exps, pub \in Peers \cup {Local}, b \in 0..(K + 2) : PutValue(f, k, e, pub, b)
+        \/ \E f \in Peers, k \in Keys, e \in Exps, own \in BOOLEAN, b \in {0, K + 1, K + 2} : PutValue(f, k, e, IF own THEN Local ELSE f, b)
         \/ \E f \in Peers, k \in Keys : GetValue(f, k) \/ GetProviders(f, k)
         \/ \E f \in Peers, k \in Keys, p \in Peers \cup {Local} : AddProvider(f, k, p)
         \/ \E k \in Keys, e \in {None, 1} : Provide(k, e)
